@@ -172,6 +172,13 @@ def run_falsifier(ctx, check_types):
             inputs = [("Root", [_gen.gen_name_clash(rng)])]
             job["omitDefaults"] = rng.random() < 0.6
             job["convertUnicode"] = True if job["omitDefaults"] else rng.random() < 0.7
+        if i >= len(focus) and i % 12 == 3:
+            # renamed keys holding characters on which str.splitlines splits, inside a nested class (the nested layout
+            # re-indents the child's code)
+            inputs = [("Root", [{"child": {"first\u2028name": 1, "last\x85name": "x", "ps\u2029key": 2.5,
+                                           "deeper": {"vt\x0bkey": 1, "ff\x0ckey": 2}}, "n": 1}])]
+            job.update({"fw": rng.choice(["pydantic", "sqlmodel", "attrs", "dataclasses"]), "layout": "nested", "meta": True})
+            job.pop("renderFirst", None)
         if i >= len(focus) and i % 12 == 9:
             # the literal limit left at its default through the API: 10..15 distinct short strings are `str`, fewer a Literal
             k = rng.choice([9, 10, 12, 15])
